@@ -1,5 +1,6 @@
 (* C05 — iterators: script interpreter over the extracted Iter / Mult models *)
 open Model
+type string = Stdlib.String.t  (* Model defines Coq's string inductive; keep OCaml's name *)
 open Proto
 
 type ist = Flat of fiter * bool list option | Mult of miter * int
